@@ -156,6 +156,11 @@ func (st *style) arg(b *strings.Builder, a string, col int) {
 		b.WriteString(a)
 		return
 	}
+	if mode <= 2 && strings.Contains(a, "+") && plainWord(strings.ReplaceAll(a, "+", "x")) && t.Rare(3) {
+		// a '+' inside or in front of an unquoted word (where it is not the concatenation operator)
+		b.WriteString(a)
+		return
+	}
 	if mode == 3 && !strings.Contains(a, "'") {
 		b.WriteByte('\'')
 		b.WriteString(a)
